@@ -11,6 +11,7 @@ import os
 import re
 import shutil
 import subprocess
+import threading
 import time
 import tomllib
 
@@ -19,6 +20,45 @@ from .rustsrc import mask, find_item, LostAnchor
 VERIF = os.path.dirname(os.path.dirname(os.path.abspath(__file__)))
 SCRATCH_ROOT = os.environ.get('VX_SCRATCH', '/var/tmp/vx')
 TARGET_DIR = os.environ.get('VX_KANI_TARGET', os.path.join(VERIF, '.cache', 'kani-target'))
+
+
+MEM_CAP_KB = int(os.environ.get('VX_KANI_MEM_GB', '20')) * 1048576
+
+
+def _descends_from(pid, root):
+    seen = 0
+    while pid > 1 and seen < 64:
+        if pid == root:
+            return True
+        try:
+            pid = int(open(f'/proc/{pid}/stat').read().rsplit(')', 1)[1].split()[1])
+        except Exception:
+            return False
+        seen += 1
+    return False
+
+
+def _memory_watchdog(stop, killed):
+    """CBMC can grow to tens of GB on a harness it cannot handle (possibly only under a changed /repo):
+    kill any cbmc process started by this run whose resident set passes the cap, so that the harness
+    ends as a tool error (exit 2) instead of taking the machine down."""
+    me = os.getpid()
+    while not stop.wait(5):
+        for d in os.listdir('/proc'):
+            if not d.isdigit():
+                continue
+            try:
+                if open(f'/proc/{d}/comm').read().strip() != 'cbmc':
+                    continue
+                rss = 0
+                for line in open(f'/proc/{d}/status'):
+                    if line.startswith('VmRSS:'):
+                        rss = int(line.split()[1])
+                if rss > MEM_CAP_KB and _descends_from(int(d), me):
+                    os.kill(int(d), 9)
+                    killed.append(int(d))
+            except Exception:
+                continue
 
 
 class Harness:
@@ -170,15 +210,22 @@ def run_unit(scratch, unit, harnesses, log_dir, extra_flags=(), timeout_s=3600):
     env = dict(os.environ)
     env['CARGO_NET_OFFLINE'] = 'true'
     t0 = time.time()
+    stop_watch = threading.Event()
+    killed = []
+    threading.Thread(target=_memory_watchdog, args=(stop_watch, killed), daemon=True).start()
     try:
         p = subprocess.run(cmd, cwd=scratch.dir, capture_output=True, text=True, env=env, timeout=timeout_s)
         out = p.stdout + '\n' + p.stderr
+        if killed:
+            out += f'\nVX: memory watchdog killed {len(killed)} cbmc process(es) above {MEM_CAP_KB // 1048576} GiB resident\n'
         rc = p.returncode
     except subprocess.TimeoutExpired as e:
         out = (e.stdout or b'').decode(errors='replace') if isinstance(e.stdout, bytes) else (e.stdout or '')
         out += '\nVX: cargo kani invocation timed out\n'
         rc = -9
         subprocess.run(['pkill', '-f', 'cbmc'], capture_output=True)
+    finally:
+        stop_watch.set()
     wall = time.time() - t0
     open(os.path.join(log_dir, f'{unit.name}.kani.log'), 'w').write(' '.join(cmd) + '\n' + out)
     info = {'cmd': ' '.join(cmd), 'wall_s': wall, 'rc': rc, 'build_error': None}
